@@ -425,10 +425,10 @@ def exhaustive(ctx, run: Runner, basis, full_coq, masks=32):
                            f"{jc.out_cells_term(t.cells, u, pre + 'u' + ('3' if name == 'c' else name))}.", 0))
     cs.shared = shared
     cs._new()
-    ons = on_variants()
+    inc = basis == "inc"
+    ons = on_variants() if full_coq or not inc else [None, ["country"], ["lob", "currency"]]
     others = [o for o in ons if o is not None]
     fls = ([], ["prem"], ["paid", "rep"], ["prem", "paid", "rep", "extra", "nope"])
-    inc = basis == "inc"
     for m1 in range(masks):
         for m2 in range(masks):
             t1, t2 = tris["l", m1], tris["r", m2]
@@ -462,6 +462,8 @@ def exhaustive(ctx, run: Runner, basis, full_coq, masks=32):
         for y in range(masks):
             for z in range(masks):
                 coq = full_coq or (max(x, y, z) < 16 and not inc) or rng.random() < (0.03 if not inc else 0.06)
+                if inc and not coq and (x + y + z) % 4:
+                    continue        # quick tier, incremental: a quarter of the triples
                 run.coalesce([tris["l", x], tris["r", y], tris["c", z]], [f"{pre}l{x}", f"{pre}r{y}", f"{pre}c{z}"],
                              {"basis": basis, "masks": [x, y, z]}, coq=coq)
     for x in range(0, masks, 5):        # one and two operands
@@ -525,7 +527,10 @@ def random_pairs(ctx, run: Runner, n):
         except ct.NotRepresentable:
             ctx.hist("skipped:not-representable")
             continue
+        cs.hold = False
+        cs.begin_case()
         cs.add_def(f"a{k}", la, len(t1))
+        cs.hold = True
         cs.add_def(f"b{k}", lb, len(t2))
         ctx.hist(f"random-pair:{basis}/slices={info['n_slices']}/{info['slice_diff']}")
         j1, j2 = jc.tri_to_json(t1), jc.tri_to_json(t2)
@@ -547,6 +552,7 @@ def random_pairs(ctx, run: Runner, n):
         dup = len({ckey(c, None, is_inc(c)) for c in t1.cells}) != len(t1.cells)
         same = (not isinstance(res, BaseException)) and jc.canon_seq(res.cells) == jc.canon_seq(t1.cells)
         run.record({"t1": j1, "op": "merge_self"}, [] if same or dup else ["merge(t, t) is not t"], len(t1) >= 2)
+    cs.hold = False
 
 
 def directed(ctx, run: Runner):
@@ -563,12 +569,14 @@ def directed(ctx, run: Runner):
          "cell": jc.mk_triangle(plain), "empty": jc.mk_triangle([])}
     for name, t in T.items():
         cs.add_def(f"d_{name}", ct.ccells(t.cells), len(t))
+    cs.hold = True
     J = {k: jc.tri_to_json(t) for k, t in T.items()}
     for x, y in [("cum", "inc"), ("inc", "cum"), ("cell", "cum"), ("cum", "cell"), ("empty", "inc"), ("inc", "empty"),
                  ("empty", "cum"), ("cum", "empty"), ("empty", "empty"), ("cum", "cum2")]:
         for jt in JOIN_TYPES + ["outer", ""]:
             run.join_merge(T[x], T[y], f"d_{x}", f"d_{y}", jt, None, {"t1": J[x], "t2": J[y], "jt": jt, "on": None})
         run.pm(T[x], T[y], f"d_{x}", f"d_{y}", None, {"t1": J[x], "t2": J[y], "suffix": None})
+    cs.hold = False
     # F13 (repaired): an empty left operand is an ordinary operand
     for jt in JOIN_TYPES:
         res = call(lambda: bm.utils.join(T["empty"], T["cum"], jt))
@@ -697,7 +705,10 @@ def run(ctx):
         "values/field sets at equal coordinates; metadata differ in country / details.lob / currency) x 6 join types x "
         "{None, [], every non-empty subset of [country, lob, currency]} for join and merge, x suffixes for period_merge, "
         "x 4 field lists for add_statics; all 32^3 triples for coalesce; cumulative and incremental (incremental with "
-        "a prev_evaluation_date-only difference; quick tier: 3 `on` variants and a sample of triples); directed error "
+        "a prev_evaluation_date-only difference).  The real operations and the Python oracles run on that full product "
+        "(quick tier, incremental: 3 `on` variants, a quarter of the triples); inside coqc the thorough tier evaluates "
+        "the full product, the quick tier every pair x every join type with on=None plus one rotating `on` variant per "
+        "pair, the 16^3 triples of the first four cells plus a sample; directed error "
         "branches (cell-type clash, unknown join type, empty operands); random larger pairs from harness/gen.py with "
         "overlapping/disjoint coordinates, differing field sets, equal-but-differently-written metadata.  Non-trivial: "
         "operands with >= 2 cells in total or an error branch.")
